@@ -1219,8 +1219,32 @@ func TestVerifC14E2(t *testing.T) {
 	fmt.Printf("VERIF_C14_DONE runs=%d hangs=%d elapsed_ms=%d\n", done, hangs, time.Since(start).Milliseconds())
 }
 
-// verifC14Corrupt (self-test of the binding only): removes one reply from a history and attaches a ghost session.
+// verifC14Corrupt (self-test of the binding only, VERIF_C14_SELFTEST=1): in the first run it attaches an unknown session to a
+// topic of the last snapshot (monitor NoGhostSession must fire) and rewrites the code of one {sub} reply to 299 (binding: reply_class).
 func verifC14Corrupt(rec map[string]any) {
+	if snaps, ok := rec["snaps"].([]map[string]any); ok {
+		for i := len(snaps) - 1; i >= 0; i-- {
+			st, _ := snaps[i]["st"].(map[string]any)
+			tps, _ := st["topics"].(map[string]any)
+			names := make([]string, 0, len(tps))
+			for n := range tps {
+				names = append(names, n)
+			}
+			sort.Strings(names)
+			done := false
+			for _, n := range names {
+				tp := tps[n].(map[string]any)
+				if tp["active"] == true {
+					tp["att"] = append(append([]string{}, tp["att"].([]string)...), "?")
+					done = true
+					break
+				}
+			}
+			if done {
+				break
+			}
+		}
+	}
 	hist, _ := rec["hist"].(map[string]any)
 	names := make([]string, 0, len(hist))
 	for n := range hist {
@@ -1229,21 +1253,14 @@ func verifC14Corrupt(rec map[string]any) {
 	sort.Strings(names)
 	for _, n := range names {
 		h := hist[n].(map[string]any)
-		if h["term"] != "" {
-			continue
-		}
 		evs := h["ev"].([]verifC14Event)
-		for i := len(evs) - 1; i >= 0; i-- {
-			if evs[i]["e"] == "ctrl" && evs[i]["id"] != "" {
-				id := evs[i]["id"]
-				isSub := false
-				for _, e := range evs {
-					if e["e"] == "req" && e["id"] == id && (e["k"] == "sub" || e["k"] == "leave") {
-						isSub = true
-					}
-				}
-				if isSub {
-					h["ev"] = append(append([]verifC14Event{}, evs[:i]...), evs[i+1:]...)
+		for _, e := range evs {
+			if e["e"] != "ctrl" || e["id"] == "" {
+				continue
+			}
+			for _, r := range evs {
+				if r["e"] == "req" && r["id"] == e["id"] && r["k"] == "sub" {
+					e["code"] = 299
 					return
 				}
 			}
